@@ -95,12 +95,12 @@ PROPS = {
     "C03": dict(
         level="other",
         bounded=_both(_ops("C03"), _mod("pure"), _mod("mcsz3")),
-        lemmas=["GVC.count", "CoveredUpTo.snoc", "MCS.bridge", "MCS.bridge2", "KeySoftN.mono", "XI", "L-rest", "L-restk", "L-stop", "L-stopk", "mem.snoc.Int", "mem.nil.Int"],
+        lemmas=["GVC.count", "SeenViol.step", "InKey.step", "GenBlock.step", "CoveredUpTo.snoc", "MCS.bridge", "MCS.bridge2", "KeySoftN.mono", "XI", "L-rest", "L-restk", "L-stop", "L-stopk", "mem.snoc.Int", "mem.nil.Int"],
         trusted=TB + ["TB-z3", "TB-time", "TB-sat"],
         assumed=[
             "RC2: RC2(wcnf).compute() returns None iff no world satisfies the hard clauses, otherwise a model of them (pysat, trusted)",
             "GVC: get_violated_conditional(model, rc2.cost, ignore) = the not-ignored keys falsified by the model's world (bounded: module pure); its body is proved at clause level (contract get_violated_conditional#impl: the not-ignored keys with a clause containing no literal of the model, provided cost >= the number of such clauses; lemmas GVC.count) -- assumed are the step from unsatisfied clauses to falsified conditionals (TB-tac) and rc2.cost >= that count",
-            "BLOCK: the clauses of exclude_violated(v), added together, remove exactly the worlds falsifying every conditional of v (bounded: module pure)",
+            "BLOCK: the clauses of exclude_violated(v), added together, remove exactly the worlds falsifying every conditional of v (bounded: module pure); WHICH clauses these are is proved (contract exclude_violated#impl: per key k of v every clause of nf_cnf_dict[k] extended by -id(k), then one clause of all the id(k)) -- assumed is their reading over worlds (projection of the helper variables)",
             "TB-tac: goal2intcnf(tseitin(F)) is a clause list denoting the models of F (the only assumption inside belief_base_to_cnf / query_to_cnf, whose wiring is proved; bounded: module c15)",
             "termination of the enumeration loops is not proved",
             "OptModel (TB-z3): after check() == sat, Optimize.model() denotes a world of the hard set such that no world of the hard set violates a strict subset of the soft constraints it violates (bounded: module mcsz3 compares get_all_xi_i with brute force)",
@@ -119,12 +119,12 @@ PROPS = {
     "C04": dict(
         level="other",
         bounded=_both(_ops("C04"), _mod("lexbias"), _mod("pure"), _mod("mcsz3")),
-        lemmas=["GVC.count", "CoveredUpTo.snoc", "MCS.bridge", "MCS.bridge2", "KeySoftN.mono", "XI", "L-rest", "L-restk", "L-stop", "L-stopk", "mem.snoc.Int", "mem.nil.Int"],
+        lemmas=["GVC.count", "SeenViol.step", "InKey.step", "GenBlock.step", "CoveredUpTo.snoc", "MCS.bridge", "MCS.bridge2", "KeySoftN.mono", "XI", "L-rest", "L-restk", "L-stop", "L-stopk", "mem.snoc.Int", "mem.nil.Int"],
         trusted=TB + ["TB-z3", "TB-time", "TB-sat"],
         assumed=[
             "RC2: RC2(wcnf).compute() returns None iff no world satisfies the hard clauses, otherwise a model of them (pysat, trusted)",
             "GVC: get_violated_conditional(model, rc2.cost, ignore) = the not-ignored keys falsified by the model's world (bounded: module pure); its body is proved at clause level (contract get_violated_conditional#impl: the not-ignored keys with a clause containing no literal of the model, provided cost >= the number of such clauses; lemmas GVC.count) -- assumed are the step from unsatisfied clauses to falsified conditionals (TB-tac) and rc2.cost >= that count",
-            "BLOCK: the clauses of exclude_violated(v), added together, remove exactly the worlds falsifying every conditional of v (bounded: module pure)",
+            "BLOCK: the clauses of exclude_violated(v), added together, remove exactly the worlds falsifying every conditional of v (bounded: module pure); WHICH clauses these are is proved (contract exclude_violated#impl: per key k of v every clause of nf_cnf_dict[k] extended by -id(k), then one clause of all the id(k)) -- assumed is their reading over worlds (projection of the helper variables)",
             "TB-tac: goal2intcnf(tseitin(F)) is a clause list denoting the models of F (the only assumption inside belief_base_to_cnf / query_to_cnf, whose wiring is proved; bounded: module c15)",
             "termination of the enumeration loops is not proved",
             "OptModel (TB-z3) as for C03",
@@ -140,7 +140,7 @@ PROPS = {
     "C05": dict(
         level="other",
         bounded=_both(_ops("C05"), _mod("pure")),
-        lemmas=["GVC.count", "HoldAll", "SumCong.Eta", "mem.at.Int", "mem.snoc.Int", "mem.nil.Int", "KeySoftN.mono", "CoveredUpTo.snoc", "MCS.bridge", "MCS.bridge2"],
+        lemmas=["GVC.count", "SeenViol.step", "InKey.step", "GenBlock.step", "HoldAll", "SumCong.Eta", "mem.at.Int", "mem.snoc.Int", "mem.nil.Int", "KeySoftN.mono", "CoveredUpTo.snoc", "MCS.bridge", "MCS.bridge2"],
         trusted=TB + ["TB-ifml", "TB-sat", "TB-time"],
         assumed=[
             "MCS: minimal_correction_subsets enumerates the inclusion-minimal falsified key sets over the hard clauses' worlds (bounded: modules pure, c15)",
@@ -225,7 +225,7 @@ PROPS = {
     "C11": dict(
         level="other",
         bounded=_both(_usable_only(_mod("rel", "run_c11")), _mod("pure"), _mod("mcsz3"), _mod("extra", "run_c11x")),
-        lemmas=["GVC.count", "CoveredUpTo.snoc", "MCS.bridge", "MCS.bridge2", "XI"],
+        lemmas=["GVC.count", "SeenViol.step", "InKey.step", "GenBlock.step", "CoveredUpTo.snoc", "MCS.bridge", "MCS.bridge2", "XI"],
         trusted=TB + ["TB-z3", "TB-time", "TB-sat (RC2 assumed correct for every engine name)"],
         assumed=[
             "RC2 / GVC / BLOCK (see C03): the MaxSAT layer below minimal_correction_subsets",
@@ -270,7 +270,7 @@ PROPS = {
     "C15": dict(
         level="other",
         bounded=_both(_mod("c15"), _mod("pure")),
-        lemmas=["GVC.count", "CoveredUpTo.snoc", "MCS.bridge", "MCS.bridge2", "CnfHolds.snoc"],
+        lemmas=["GVC.count", "SeenViol.step", "InKey.step", "GenBlock.step", "CoveredUpTo.snoc", "MCS.bridge", "MCS.bridge2", "CnfHolds.snoc"],
         trusted=["TB-tac", "TB-sat", "TB-py", "TB-zexpr"],
         assumed=[
             "TB-tac: the Tseitin tactic returns a goal in CNF format (clauses of literals) that is equisatisfiable with the formula over the formula's atoms (bounded: truth tables of the resulting integer CNFs in module c15)",
